@@ -214,6 +214,14 @@ func FindProtocolVersion(data []byte) string {
 // result column that is not binary (a scalar-returning method) — so the
 // caller can forward the body unchanged.
 func ReadUnaryResult(data []byte) (schema *arrow.Schema, result []byte, ok bool) {
+	// A body whose buffers contradict their framing (value offsets that run
+	// backwards or start below zero) makes the arrow accessors panic; for a
+	// lenient reader that is one more "not a result".
+	defer func() {
+		if recover() != nil {
+			schema, result, ok = nil, nil, false
+		}
+	}()
 	reader, err := ipc.NewReader(bytes.NewReader(data))
 	if err != nil {
 		return nil, nil, false
